@@ -68,12 +68,12 @@ def run_history(item):
             if os.path.exists(target):
                 with open(target, encoding="utf-8", newline="") as f:
                     cur = f.read()
-            if kind == "ext":
+            if kind in ("ext", "ext_empty"):
                 os.makedirs(sub, exist_ok=True)
                 if cur is not None:
                     olds.append(cur)
                 with open(target, "w", encoding="utf-8", newline="") as f:
-                    f.write("===DOC===\nA :: 1\nB::ext%d\n===END===\n" % n)
+                    f.write("===DOC===\nA :: 1\nB::ext%d\n===END===\n" % n if kind == "ext" else "")
                 recs.append({"op": op, "obs": {"status": "ext", "code": "-", "changed": True, "hash_ok": True,
                                                "target_changed": True, "only_target": True}})
                 continue
@@ -331,13 +331,13 @@ MATCHERS = {"C17-cas-window": _window, "C17-mkdir-leftover-on-error": _leftover_
 
 def run(ctx):
     # ---------------- (a) histories
-    kinds = {"content", "changes", "normalize", "dry", "bad", "ext"}
+    kinds = {"content", "changes", "normalize", "dry", "bad", "ext", "ext_empty"}
     bases = {"none", "current", "stale", "future"}
     maxlen = 4 if ctx.thorough else 3
     res = ctx.model("CasRegister", constants={"MaxLen": maxlen, "Kinds": kinds, "Bases": bases},
                     invariants=["EmitCase"], required_actions=["Extend"])
     hists = list(res.payload_lines())
-    api_hists = [h for h in hists if all(o["kind"] in ("content", "ext") for o in h["ops"])]
+    api_hists = [h for h in hists if all(o["kind"] in ("content", "ext", "ext_empty") for o in h["ops"])]
     items = [(k, "tool", h) for k, h in enumerate(hists)] + [(len(hists) + k, "api", h) for k, h in enumerate(api_hists)]
     outs = engine.parallel_map(job_hist, items, chunk=60)
     trace, where = [], {}
